@@ -133,14 +133,19 @@ def run(ctx, chk):
         chk.undecided_("C16.R4", "preprocess", "function not found")
     else:
         n = 0
-        for bi, t in M.calls_in(pp):
-            if (t[1].get("def") or "").endswith("get_err_pos"):
-                n += 1
-                chain = trace_value(pp, bi, t[2][1])
-                if any(c[0] == "rvalue" and c[1][0] == "bin" for c in chain):
-                    chk.violation("C16.R4", "preprocess", "position-arithmetic", "the diagnostic position is modified before the line lookup", pp["span"])
-                else:
-                    chk.ok("C16.R4", f"preprocess@bb{bi}", "error start passed unmodified")
+        from driver_rules import local_closure
+        # the lookup may be written in preprocess() itself or in a local helper / closure it uses for the message
+        for g in local_closure(ctx.program, pp):
+            if not g["name"].startswith("driver::"):
+                continue
+            for bi, t in M.calls_in(g):
+                if (t[1].get("def") or "").endswith("get_err_pos") and len(t[2]) >= 2:
+                    n += 1
+                    chain = trace_value(g, bi, t[2][1])
+                    if any(c[0] == "rvalue" and c[1][0] == "bin" for c in chain):
+                        chk.violation("C16.R4", "preprocess", "position-arithmetic", "the diagnostic position is modified before the line lookup", g["span"])
+                    else:
+                        chk.ok("C16.R4", f"{g['name'].split('::')[-1]}@bb{bi}", "error start passed unmodified")
         if n == 0:
             chk.violation("C16.R4", "preprocess", "no-line-lookup", "preprocess() no longer maps the error position to a line", pp["span"])
 
